@@ -43,6 +43,13 @@ ReadBuf == 100           \* bufio.NewReaderSize(in, 100): lines of >= 100 bytes 
 
 HasPrefix(s, p) == Len(s) >= Len(p) /\ SubSeq(s, 1, Len(p)) = p
 
+(* Behaviour of the code before two repairs, kept only so that the old counterexamples stay documented: a cfg can override
+   these two operators (`PreFixShortCrc <- AlwaysTrue`, see Armor_ShortCrc.cfg / Armor_OldEmptyValue.cfg).  The default is the
+   repaired code (/repo 5d307c4: a checksum line that does not decode to 3 octets is ArmorCorrupt; /repo 91fc6da: a trimmed
+   header line ending in ':' is a key with an empty value).  The checks never expect the pre-fix behaviour of the code. *)
+PreFixShortCrc == FALSE
+PreFixEmptyValue == FALSE
+
 -----------------------------------------------------------------------------
 (* radix-64, RFC 4648 section 4 *)
 B64Char(v) == IF v < 26 THEN 65 + v ELSE IF v < 52 THEN 71 + v ELSE IF v < 62 THEN v - 4
@@ -165,7 +172,9 @@ BodyLines(ls, j, acc) ==
          \* base64.StdEncoding.Decode(expectedBytes, line[1:]) -- one chunk, so trailing garbage is an error
          LET d == B64Stream(NoCRLF(SubSeq(line, 2, 5)), 1, <<>>, FALSE) IN
          IF ~d.ok \/ d.afterPad THEN [term |-> "corrupt", chars |-> acc, crc |-> 0]
-         ELSE IF Len(d.bytes) # 3 THEN BodyLines(ls, j + 1, acc)          \* "if m != 3 || err != nil { return }" with err = nil
+         ELSE IF Len(d.bytes) # 3
+              THEN IF PreFixShortCrc THEN BodyLines(ls, j + 1, acc)        \* pre-fix: "if m != 3 || err != nil { return }" with err = nil skipped the line
+                   ELSE [term |-> "corrupt", chars |-> acc, crc |-> 0]      \* a padded checksum is not a CRC-24: ArmorCorrupt
          ELSE IF j + 1 <= Len(ls) /\ HasPrefix(ls[j + 1], EndPfx)
               THEN [term |-> "crc", chars |-> acc, crc |-> d.bytes[1] * 65536 + d.bytes[2] * 256 + d.bytes[3]]
               ELSE [term |-> "corrupt", chars |-> acc, crc |-> 0]
@@ -191,7 +200,10 @@ ReadHeaders(ls, j, typ, hdr) ==
   ELSE LET line == Trim(ls[j]) IN
     IF Len(line) = 0 THEN ReadBody(ls, j + 1, typ, hdr)
     ELSE LET i == IdxColonSp(line, 1) IN
-      IF i = 0 THEN FindBlock(ls, j + 1)                        \* goto TryNextBlock
+      IF i = 0 THEN
+           IF line[Len(line)] = COLON /\ ~PreFixEmptyValue
+           THEN ReadHeaders(ls, j + 1, typ, Override(hdr, SubSeq(line, 1, Len(line) - 1), <<>>))    \* "Key: " written for an empty value, trimmed
+           ELSE FindBlock(ls, j + 1)                            \* goto TryNextBlock
       ELSE ReadHeaders(ls, j + 1, typ, Override(hdr, SubSeq(line, 1, i - 1), SubSeq(line, i + 2, Len(line))))
 FindBlock(ls, j) ==
   IF j > Len(ls) THEN Fail("no-block")
@@ -208,11 +220,11 @@ Decode(t) == FindBlock(ReadLines(t), 1)         \* armor.Decode followed by io.R
 ContainsColonSp(s) == IdxColonSp(s, 1) # 0
 HeaderSafe(kv) == /\ ~ContainsColonSp(kv[1])
                   /\ (Len(kv[1]) = 0 \/ ~IsSpace(kv[1][1]))                \* no leading space in the key
-                  /\ Len(kv[2]) > 0 /\ ~IsSpace(kv[2][Len(kv[2])])         \* value not empty, no trailing space
+                  /\ (Len(kv[2]) = 0 \/ ~IsSpace(kv[2][Len(kv[2])]))       \* no trailing space in the value (an empty value is fine)
 \* why an unsafe pair is unsafe (signature classes for the harness)
 HeaderClass(kv) == IF ContainsColonSp(kv[1]) THEN "key-contains-colon-space"
                    ELSE IF Len(kv[1]) > 0 /\ IsSpace(kv[1][1]) THEN "key-leading-space"
-                   ELSE IF Len(kv[2]) = 0 THEN "empty-value"
+                   ELSE IF Len(kv[2]) = 0 THEN "safe"                      \* (was the class "empty-value" before /repo 91fc6da)
                    ELSE IF IsSpace(kv[2][Len(kv[2])]) THEN "value-trailing-space"
                    ELSE "safe"
 HdrSet(hdrs) == {hdrs[i] : i \in 1..Len(hdrs)}
@@ -271,19 +283,18 @@ RoundTrip == (Decoded /\ mut.k = "none" /\ DistinctKeys(inp.hdrs) /\ \A i \in 1.
 \* This is a statement about the code as it is; the harness reports the unsafe classes as findings.
 HeaderExact == (Decoded /\ mut.k = "none" /\ Len(inp.hdrs) = 1) => (Same <=> HeaderSafe(inp.hdrs[1]))
 \* C46 clause 2: a damaged body/CRC is rejected (in the lenient reading of data-after-padding, hence in both).
-\* Damage that is accepted leaves the decoded body intact, and either
-\*  (a) the checked CRC too: a flip in the unused low bits of the last radix-64 character before "=" (encoding/base64.StdEncoding
-\*      is not Strict()) -- the body and CRC that are compared still match; or
-\*  (b) KNOWN DEFECT of lineReader.Read, modelled as it is: a checksum line "=xxx=" / "=xx==" decodes without error to fewer than
-\*      3 bytes, `if m != 3 || err != nil { return }` then returns (0, nil), the line is skipped and NO CRC is checked.  One bit
-\*      ('5' or '9' -> '=' in the last CRC character) gets there.  CorruptRejectedStrict is the invariant without this exception;
-\*      Armor_ShortCrc.cfg documents that TLC refutes it.
+\* The only damage that is accepted leaves the decoded body AND the checked CRC intact: a flip in the unused low bits of the last
+\* radix-64 character before "=" (encoding/base64.StdEncoding is not Strict()) -- the body and CRC that are compared still match.
+\* History: before /repo 5d307c4 a checksum line "=xxx=" / "=xx==" (one bit: '5' or '9' -> '=' in the last CRC character) decoded
+\* without error to fewer than 3 bytes and was skipped, so NO CRC was checked (finding C46-F1).  With PreFixShortCrc overridden
+\* to TRUE TLC still refutes this invariant (Armor_ShortCrc.cfg, documentation only).
 ShortCrcLine(t) == \E i \in 1..Len(ReadLines(t)) : LET l == ReadLines(t)[i] IN
                      /\ Len(l) = 5 /\ l[1] = EQ
                      /\ LET d == B64Stream(NoCRLF(SubSeq(l, 2, 5)), 1, <<>>, FALSE) IN d.ok /\ ~d.afterPad /\ Len(d.bytes) < 3
-CorruptRejectedStrict == (Decoded /\ mut.k \in {"flip", "wrongcrc"}) => (~res.ok \/ (res.body = inp.body /\ res.crcChecked /\ mut.k = "flip"))
-CorruptRejected == (Decoded /\ mut.k \in {"flip", "wrongcrc"}) =>
-                     (~res.ok \/ (res.body = inp.body /\ mut.k = "flip" /\ (res.crcChecked \/ ShortCrcLine(text))))
+CorruptRejected == (Decoded /\ mut.k \in {"flip", "wrongcrc"}) => (~res.ok \/ (res.body = inp.body /\ res.crcChecked /\ mut.k = "flip"))
+CorruptRejectedStrict == CorruptRejected          \* former name, still used by Armor_ShortCrc.cfg
+\* a checksum line that is not a 24-bit CRC is never skipped
+ShortCrcRejected == (Decoded /\ ShortCrcLine(text)) => ~res.ok
 PadBitsOnly == (Decoded /\ mut.k = "flip" /\ res.ok /\ res.crcChecked) =>
                  LET bt == BodyText(inp.body)  q == mut.pos - RegionLo(inp.typ, inp.hdrs) + 1     \* 1-based index into the body text
                      k == IF Len(inp.body) % 3 = 1 THEN 16 ELSE 4                                 \* 4 resp. 2 unused low bits
